@@ -147,6 +147,18 @@ NOTSAN static void yield_point() {
     if (to) switch_to(to, false);
 }
 
+// Intercepted synchronisation point (an atomic operation executed by library code; TSan flavour only, see the wrappers at the end of
+// this file): the scheduler may hand the processor to another worker *before* the operation takes effect. Edge-granular preemption
+// cannot separate two atomic accesses of one basic block; this can.
+static u64 g_sync_points = 0;
+NOTSAN void sched_sync_point() {
+    if (!g_cur || g_cur == &g_main || g_incallback > 0 || g_inlib == 0) return;
+    ++g_sync_points;
+    if (!g_srng.chance(1, 2)) return;
+    Fiber *to = pick_runnable(g_cur);
+    if (to && to != g_cur) switch_to(to, false);
+}
+
 static void fiber_main(unsigned lo, unsigned hi) {
     Fiber *self = (Fiber *)((u64(hi) << 32) | lo);
     for (size_t j = 0; j < self->jobs.size(); ++j) {
@@ -302,3 +314,27 @@ Plan gen_concneg(u64 seed) { Plan p = gen_conc(seed); p.mode = "concneg"; for (a
 void run_concneg(const Plan &p) { run_conc_impl(p, true); }
 
 } // namespace sim
+
+#ifdef GRSIM_TSAN_BUILD
+// Link-time wrappers (-Wl,--wrap=...) around the TSan runtime's atomic entry points: every atomic operation compiled into the
+// library becomes a scheduling point. The shipped library has none, so on the unchanged tree these never run.
+#define GRSIM_WRAP_ATOMIC(bits, T) \
+extern "C" T __real___tsan_atomic##bits##_load(const volatile T *a, int mo); \
+extern "C" T __wrap___tsan_atomic##bits##_load(const volatile T *a, int mo) { sim::sched_sync_point(); return __real___tsan_atomic##bits##_load(a, mo); } \
+extern "C" void __real___tsan_atomic##bits##_store(volatile T *a, T v, int mo); \
+extern "C" void __wrap___tsan_atomic##bits##_store(volatile T *a, T v, int mo) { sim::sched_sync_point(); __real___tsan_atomic##bits##_store(a, v, mo); } \
+extern "C" T __real___tsan_atomic##bits##_exchange(volatile T *a, T v, int mo); \
+extern "C" T __wrap___tsan_atomic##bits##_exchange(volatile T *a, T v, int mo) { sim::sched_sync_point(); return __real___tsan_atomic##bits##_exchange(a, v, mo); } \
+extern "C" T __real___tsan_atomic##bits##_fetch_add(volatile T *a, T v, int mo); \
+extern "C" T __wrap___tsan_atomic##bits##_fetch_add(volatile T *a, T v, int mo) { sim::sched_sync_point(); return __real___tsan_atomic##bits##_fetch_add(a, v, mo); } \
+extern "C" T __real___tsan_atomic##bits##_fetch_sub(volatile T *a, T v, int mo); \
+extern "C" T __wrap___tsan_atomic##bits##_fetch_sub(volatile T *a, T v, int mo) { sim::sched_sync_point(); return __real___tsan_atomic##bits##_fetch_sub(a, v, mo); } \
+extern "C" int __real___tsan_atomic##bits##_compare_exchange_strong(volatile T *a, T *c, T v, int mo, int fmo); \
+extern "C" int __wrap___tsan_atomic##bits##_compare_exchange_strong(volatile T *a, T *c, T v, int mo, int fmo) { sim::sched_sync_point(); return __real___tsan_atomic##bits##_compare_exchange_strong(a, c, v, mo, fmo); } \
+extern "C" int __real___tsan_atomic##bits##_compare_exchange_weak(volatile T *a, T *c, T v, int mo, int fmo); \
+extern "C" int __wrap___tsan_atomic##bits##_compare_exchange_weak(volatile T *a, T *c, T v, int mo, int fmo) { sim::sched_sync_point(); return __real___tsan_atomic##bits##_compare_exchange_weak(a, c, v, mo, fmo); }
+GRSIM_WRAP_ATOMIC(8, unsigned char)
+GRSIM_WRAP_ATOMIC(16, unsigned short)
+GRSIM_WRAP_ATOMIC(32, unsigned int)
+GRSIM_WRAP_ATOMIC(64, unsigned long long)
+#endif
